@@ -156,7 +156,7 @@ impl CsvChainStorage {
                 } else if v.is_infinite() {
                     if *v > 0.0 { "Inf" } else { "-Inf" }.to_string()
                 } else {
-                    format!("{:.prec$}", v, prec = self.precision)
+                    format!("{:.prec$}", v, prec = self.precision.min(u16::MAX as usize))
                 }
             }
             Value::ScalarF32(v) => {
@@ -165,7 +165,7 @@ impl CsvChainStorage {
                 } else if v.is_infinite() {
                     if *v > 0.0 { "Inf" } else { "-Inf" }.to_string()
                 } else {
-                    format!("{:.prec$}", v, prec = self.precision)
+                    format!("{:.prec$}", v, prec = self.precision.min(u16::MAX as usize))
                 }
             }
             Value::ScalarU64(v) => v.to_string(),
